@@ -50,7 +50,19 @@ def run(tier):
                                 {"cell": cell})
             # binding: the observation should match what the spec's rule sets predict
             if p is not None:
-                if cell["w"] == "inst" and cell["base"][m] != p["base"][m]:
+                if cell["w"] == "inst" and cell["base"][m] and not p["base"][m]:
+                    # the library's own smart pointer claims a marker that the handle it is built from (Box<T>, Box<[T]>,
+                    # Arc<T>: SendSync!BaseHas) does not have: "a smart pointer can be sent ... only if the instance handle
+                    # it was built from could be"
+                    site = "typed:%s:%s:%s" % (cell["i"], cell["p"], m)
+                    if site in known:
+                        if site not in seen_sites:
+                            c.known(known[site]["id"], known[site]["what"])
+                            seen_sites.add(site)
+                    else:
+                        c.violation("the typed smart pointer %s over a %s payload is %s, but the handle it is built from is not (Rust's rule for its std counterpart)" % (cell["i"], cell["p"], m),
+                                    {"cell": cell, "predicted_base": p["base"]})
+                elif cell["w"] == "inst" and cell["base"][m] != p["base"][m]:
                     c.drift("typed %s/%s/%s %s: observed %s, SendSync!BaseHas predicts %s" % (cell["w"], cell["i"], cell["p"], m, cell["base"][m], p["base"][m]))
                 if cell["conv"] != p["conv"]:
                     c.drift("convertibility of %s/%s/%s: observed %s, ImplRules predict %s" % (cell["w"], cell["i"], cell["p"], cell["conv"], p["conv"]))
